@@ -39,6 +39,8 @@ class LockTable:
                     if a and a.startswith("self.") and (cq, a[5:]) in raw:
                         cid = "%s.%s" % (cq.split(".")[-1], a[5:])
                         self.kind.setdefault(cid, raw[(cq, a[5:])][0])
+                    elif isinstance(call.args[0], ast.Call) and dotted(call.args[0].func) in _LOCK_CTORS and dotted(call.args[0].func).split(".")[-1] != "Condition":
+                        self.kind[cid] = dotted(call.args[0].func).split(".")[-1]  # Condition(threading.Lock()): a private lock of that kind
                     else:
                         raise AnalysisError("Condition built on an unknown lock: %s" % norm(call))
                 else:
@@ -310,6 +312,63 @@ class LockRegions:
                     changed = True
         self._entry = entry
         return entry
+
+
+def reacquisitions(program):
+    """[(lock id, func, stmt, how)] : blocking acquisitions of a NON-reentrant lock (threading.Lock, or a Condition built on
+    one) at a point where the same thread may already hold it - lexically in the same function, or along some call chain
+    (may-hold on entry: union over the call sites).  Such a thread blocks on itself for ever."""
+    lk = get_locks(program)
+    cg = lk.cg
+    plain = {lid for lid, k in lk.table.kind.items() if k == "Lock"}
+    if not plain:
+        return [], 0
+    may = {f.qual: frozenset() for f in program.functions.values()}
+    via = {}
+    changed = True
+    while changed:
+        changed = False
+        for f in program.functions.values():
+            acc = set(may[f.qual])
+            for s in cg.callers.get(f.qual, ()):
+                h = (lk.held_at_call(s) | may.get(s.func.qual, frozenset())) & plain
+                for lid in h - acc:
+                    via[(f.qual, lid)] = s
+                acc |= h
+            if acc != may[f.qual]:
+                may[f.qual] = frozenset(acc)
+                changed = True
+    out = []
+    nsites = 0
+    for f in sorted(program.functions.values(), key=lambda f: f.qual):
+        tbl = lk.lexical(f)
+        for st in ast.walk(f.node):
+            lids = []
+            if isinstance(st, (ast.With, ast.AsyncWith)):
+                lids = [lk.table.resolve(f, it.context_expr, cg) for it in st.items]
+            elif isinstance(st, ast.Expr) and isinstance(st.value, ast.Call) and lk._is_call(f, st.value, "acquire") and lk._blocking(st.value):
+                lids = [lk._is_call(f, st.value, "acquire")]
+            for lid in lids:
+                if lid not in plain:
+                    continue
+                nsites += 1
+                if id(st) not in tbl:
+                    continue
+                if lid in tbl[id(st)]:
+                    out.append((lid, f, st, "already held in %s itself" % f.qual))
+                elif lid in may[f.qual]:
+                    chain = []
+                    q = f.qual
+                    seen = set()
+                    while (q, lid) in via and q not in seen:
+                        seen.add(q)
+                        s = via[(q, lid)]
+                        chain.append("%s (%s)" % (s.func.qual, s.func.loc(s.node)))
+                        if lid in lk.held_at_call(s):
+                            break
+                        q = s.func.qual
+                    out.append((lid, f, st, "held by the caller chain " + " <- ".join(chain)))
+    return out, nsites
 
 
 def get_locks(program):
